@@ -273,6 +273,51 @@ def scenarios(ctx):
     # F. histories of pairings
     for h in histories(ctx, rng):
         add(h)
+    # G. slow users (added last, with their own generator: the inputs of A-F stay what they were)
+    for sc in slow_users(ctx):
+        add(sc)
+    return out
+
+
+def slow_users(ctx):
+    """Each user takes his own time to answer (script["wait"], virtual seconds; PDUs take at most 0.05 s): an answer
+    comes before or AFTER the peer's next PDU, on each side independently - in particular the responder's user
+    answers the numeric comparison / the Just Works consent after the initiator's DHKey check has arrived, or
+    refuses then.  MITM flags asymmetric (the model is numeric comparison as soon as ONE side asks for MITM
+    protection), symmetric, and absent (Just Works with a consent prompt)."""
+    import random
+
+    rng = random.Random(ctx.seed * 7919 + 13)
+    out = []
+    dl = lambda: rng.choice([0.0, 0.0, 0.003, 0.05])
+    waits = [(0, 2), (2, 0), (1, 2)] if ctx.quick else [(0, 2), (2, 0), (1, 2), (2, 1), (3, 3), (0, 1)]
+    nc_pairs = [(a, b) for a in IO for b in IO if _select_method(a, b, True, True) == "NC"]
+    mitms = [(True, False), (False, True), (True, True)]
+    # G1. SC numeric comparison: every answer pair x who is slow x which side asked for MITM protection
+    for k, (a, b) in enumerate(nc_pairs):
+        for (mi, mr) in mitms:
+            for (ci, cr) in ((True, True), (True, False), (False, True), (False, False)):
+                for j, (wi, wr) in enumerate(waits):
+                    if ctx.quick and (k + j + (mi, mr, ci, cr).count(True)) % 2 and not (mi and not mr and ci and (wi, wr) == (0, 2)):
+                        continue
+                    out.append(mk(a, b, True, True, mi, mr, **{"ai.cmp": ci, "ar.cmp": cr, "ai.wait": wi, "ar.wait": wr}, delay=dl()))
+    # G2. SC Just Works with a consent prompt: nobody asks for MITM protection / one side does and the IO pair has no
+    #     protected model (that side may refuse, see MayRefuse) / NoInputNoOutput
+    jws = [("DisplayYesNo", "DisplayYesNo", False, False), ("KeyboardDisplay", "DisplayYesNo", False, False),
+           ("NoInputNoOutput", "DisplayYesNo", True, False), ("DisplayOnly", "NoInputNoOutput", False, True)]
+    for (a, b, mi, mr) in (jws if ctx.quick else [(a, b, mi, mr) for a in IO for b in IO for (mi, mr) in mitms + [(False, False)]
+                                                  if _select_method(a, b, True, mi or mr) == "JW"]):
+        for (ci, cr) in (("yes", "yes"), ("yes", "no"), ("no", "yes")):
+            for (wi, wr) in waits[:2] if ctx.quick else waits:
+                out.append(mk(a, b, True, True, mi, mr, **{"ai.cfm": ci, "ar.cfm": cr, "ai.wait": wi, "ar.wait": wr}, delay=dl()))
+    # G3. passkey entry typed late (after the peer's confirm value has arrived), refused late; a late accept()
+    for sc in (True, False):
+        for (a, b, slow) in (("KeyboardOnly", "DisplayOnly", "ai"), ("DisplayOnly", "KeyboardOnly", "ar"), ("KeyboardOnly", "KeyboardOnly", "ar")):
+            for (mi, mr) in (mitms[:2] if ctx.quick else mitms):
+                for pkin in (1, 2, 0):
+                    out.append(mk(a, b, sc, sc, mi, mr, **{slow + ".pkin": pkin, slow + ".wait": 2}, badround=rng.randint(1, 20), delay=dl()))
+        for acc in (True, False):
+            out.append(mk("DisplayYesNo", "KeyboardDisplay", sc, sc, True, False, **{"ar.accept": acc, "ar.wait": 2, "ai.wait": 1}, delay=dl()))
     return out
 
 
@@ -432,7 +477,15 @@ def classify(sc, events, verdict):
         return "smp:trace:no-verdict", f"no verdict for the trace: {verdict}"
     if info.get("act") is False:
         s = ev["s"]
-        if ev["e"] == "ui":
+        if ev["e"] == "tx" and ev["t"] == "dhk" and m == "NC" and info.get("cmp", {}).get(s) == "none" and not info.get("mustfail", {}).get(s):
+            sig = f"smp:nokeys:{m}-{mode}:{s}-dhkey-check-released-before-user-answered-compare"
+            why = (f"side {s} sent its DHKey check while its user had not yet answered the numeric comparison (TxDhk needs cmp = yes): "
+                   f"the peer can complete and store keys whatever the user answers")
+        elif ev["e"] == "ui" and ev["t"] in ("compare", "confirm") and (info.get("res", {}).get(s) == "ok" or info.get("ph", {}).get(s) in ("w_enc", "keys")):
+            sig = f"smp:nokeys:{m}-{mode}:{s}-went-on-before-user-answered-{ev['t']}"
+            why = (f"the user of side {s} answered the {ev['t']} prompt ({'yes' if ev['b'] else 'NO'}) only after that side had made its last "
+                   f"phase 2 move: the pairing went on without the answer")
+        elif ev["e"] == "ui":
             sig = f"smp:model:{mode}:{sc['ci']['io']}/{sc['cr']['io']}:{s}-{ev['t']}"
             why = f"delegate call {ev['t']} on side {s} does not belong to the prescribed model {exp}"
         elif ev["e"] == "tx" and info.get("mustfail", {}).get(s):
@@ -540,7 +593,7 @@ def validate(ctx, rep, scs, results, batches=1):
 
 # ----------------------------------------------------------------------------- entry points
 def run(ctx, rep):
-    rep.rule = ("one real pairing (two Devices on a LocalLink, scripted delegates) per configuration, then reconnection in the same and in "
+    rep.rule = ("one real pairing (two Devices on a LocalLink, scripted delegates; family G: users that answer late, each side on its own clock) per configuration, then reconnection in the same and in "
                 "swapped roles; histories: 2-4 such lives of the same two devices (re-pairing over / after deleting the earlier bond); each "
                 "recorded trace validated by SmpTrace.tla; distinct = distinct (IO pair, SC/MITM/bonding/OOB flags, masks, "
                 "user answers, tamper, passkey class, bad round) tuples, per life + roles / reconnections / deletions for histories")
@@ -603,6 +656,12 @@ def selftest(ctx, rep):
         def on_pairing_failure(self, reason):
             self.completed = True
 
+    class EagerDhkeyCheck(smp.Session):  # the responder does not hold its DHKey check back until its user has answered
+        def on_smp_pairing_random_command_secure_connections(self, command):
+            super().on_smp_pairing_random_command_secure_connections(command)
+            if not self.is_initiator:
+                self.wait_before_continuing = None
+
     def proxy(cls):
         def patch(net):
             for d in net.devices:
@@ -614,6 +673,8 @@ def selftest(ctx, rep):
         "accept-anything/wrong-passkey-legacy": (mk("KeyboardOnly", "DisplayOnly", False, False, True, True, **{"ai.pkin": 2}), proxy(AcceptAnything)),
         "always-authenticated/just-works": (mk("NoInputNoOutput", "DisplayYesNo", True, True, True, True), proxy(AlwaysAuthenticated)),
         "both-display": (mk("KeyboardOnly", "DisplayOnly", True, True, True, True), proxy(BothDisplay)),
+        "eager-dhkey-check/slow-responder-says-no-to-the-comparison": (mk("DisplayYesNo", "KeyboardDisplay", True, True, True, False, **{"ar.cmp": False, "ar.wait": 2}), proxy(EagerDhkeyCheck)),
+        "eager-dhkey-check/slow-responder-refuses-just-works-consent": (mk("DisplayYesNo", "DisplayYesNo", True, True, False, False, **{"ar.cfm": "no", "ar.wait": 2}), proxy(EagerDhkeyCheck)),
         "silent-failure/reject": (mk("NoInputNoOutput", "NoInputNoOutput", True, True, False, False, **{"ar.accept": False}), proxy(SilentFailure)),
     }
     scs, traces, names = [], [], []
@@ -625,6 +686,10 @@ def selftest(ctx, rep):
     good_sc = mk("DisplayYesNo", "KeyboardDisplay", True, True, True, True)
     good, _ = cp.run_scenario(good_sc)
     scs.append(good_sc); traces.append(good); names.append("CONTROL/good-trace-accepted")
+
+    slow_sc = mk("DisplayYesNo", "KeyboardDisplay", True, True, True, False, **{"ar.wait": 2})
+    slow, _ = cp.run_scenario(slow_sc)
+    scs.append(slow_sc); traces.append(slow); names.append("CONTROL/slow-responder-says-yes-accepted")
 
     def corrupt(name, fn):
         t = json.loads(json.dumps(good))
